@@ -6,7 +6,8 @@
                  Nanos6 task-create event 6TC is accepted with a warning and not listed.
    The ovnidump decoding clause is in Properties_C18d.v. *)
 From Coq Require Import ZArith List Bool.
-From OV Require Import Emu.EmuCoreDefs Emu.DecodeDefs Emu.MarkDefs Emu.TableFactsDefs Emu.CatalogDefs Proofs.CatalogProofs.
+From OV Require Import Emu.EmuCoreDefs Emu.DecodeDefs Emu.MarkDefs Emu.TableFactsDefs Emu.CatalogDefs Emu.CatalogCtxDefs Proofs.CatalogProofs
+  Proofs.CatalogCtxProofs.
 From OV Require Gen.Tables_gen.
 Import ListNotations.
 Local Open Scope Z_scope.
@@ -26,11 +27,20 @@ Proof. exact nonbad_is_accepted_code. Qed.
 Print Assumptions C18_accepted_codes.
 
 (* every listed code is recognised: with all models enabled its handler goes past dispatch and payload checks for
-   one of the probe payloads (0, 4, 8, 12 bytes or a jumbo one).  Partial: that the event is then legal in some
-   thread/channel context is checked by execution of ovniemu and of the model on one context per listed event. *)
-Theorem C18_listed_recognised_partial : forall m c v, listed m c v = true -> recognised m c v = true.
+   one of the probe payloads (0, 4, 8, 12 bytes or a jumbo one) *)
+Theorem C18_listed_recognised : forall m c v, listed m c v = true -> recognised m c v = true.
 Proof. exact listed_is_recognised. Qed.
-Print Assumptions C18_listed_recognised_partial.
+Print Assumptions C18_listed_recognised.
+
+(* ... and is processed in a context where it is legal: for every declared event there is a trace (two threads,
+   three CPUs, all eight models enabled, two mark types; the event with a payload of its declared shape, preceded by
+   what makes it legal - a running thread, the matching enter of a leave, the created and running task ... - and
+   followed by what closes the trace) that the complete model accepts: handlers, propagation, PRV and the
+   end-of-trace check.  The same contexts are run through the real ovniemu on every run. *)
+Theorem C18_listed_processed : forall m sig desc,
+  In (m, sig, desc) Tables_gen.evdescs -> processed m (nth 1 sig 0) (nth 2 sig 0) = true.
+Proof. exact listed_processed. Qed.
+Print Assumptions C18_listed_processed.
 
 (* the exceptions are exactly as stated: B and U accept every value byte and have a listed member; 6TC is
    let through and is not listed *)
